@@ -83,6 +83,9 @@ def gen_pair(rng, kind=None, small=False):
     # the order in which the rows of one hour of an option book are listed (the (time, instrument) index is not sorted unless "sorted")
     if kind in HOURLY:
         case["row_order"] = rng.choice(("sorted", "far-first", "far-first", "shuffled"))
+        case["book_holes"] = rng.random() < 0.5
+    if kind.startswith("uni") and rng.random() < 0.35:
+        case["tick_float"] = True     # tick columns as float64 without NaN: what a reindex + forward fill of the raw minute rows leaves
     return case
 
 
@@ -154,6 +157,10 @@ def book_rows(case, bars, times, start):
             b = bars[i]
             hour = []
             for name, strike, days, j in inst:
+                # a quote missing from one hourly snapshot (the collector dropped it) while the others are there and the instrument is quoted again
+                # later; which quotes are missing is a function of the hour's own data, so histories that share a prefix share its holes
+                if case.get("book_holes") and j > 0 and (b["v"] + j) % 3 == 0:
+                    continue
                 hour.append({"time": cl.at(t), "instrument_name": name, "state": "open", "type": "CALL", "strike_price": strike,
                              "expiry_time": cl.at(start - start % 86400 + 86400 * days), "gamma": 0.001, "delta": 0.5,
                              "underlying_price": float(b["S"] + 10 * j), "mark_price": b["ask"] * 0.0005,
@@ -260,6 +267,9 @@ def make_inputs(case, bars):
                            for b in bars], index=index)
         for c in ("netAmount0", "netAmount1", "inAmount0", "inAmount1", "currentLiquidity"):
             df[c] = df[c].astype(object)
+        if case.get("tick_float"):
+            for c in ("closeTick", "openTick", "lowestTick", "highestTick"):
+                df[c] = df[c].astype("float64")
         UniLpMarket(MarketInfo("uni"), pool).add_statistic_column(df)     # the documented preparation step of the caller
         fr["uni"] = df
         if kind == "uni+deribit":
@@ -409,6 +419,9 @@ def assemble(case, inp, strategy=None):
                 elif mark % 3 == 1 and dm.positions:
                     dm.sell(list(dm.positions.keys())[0], 1)
                     obs["did"].add("option-sell")
+                elif mark % 3 == 2 and "ETH-X-1900-C" in st.index:
+                    dm.buy("ETH-X-1900-C", 2)           # an instrument whose quote is missing from some hours
+                    obs["did"].add("option2")
 
         def light(snap, tid):
             dm.buy("ETH-Y-1800-C", 1)
@@ -534,6 +547,15 @@ def assemble(case, inp, strategy=None):
                 if dm_.is_open and tick % 2 == 0:
                     dm_.buy("ETH-X-1700-C", 3)
                     obs["did"].add("option")
+                elif dm_.is_open and tick % 4 == 1:
+                    dm_.buy("ETH-X-1900-C", 2)          # an instrument whose quote is missing from some hours
+                    obs["did"].add("option2")
+                elif not dm_.is_open and tick % 7 == 3:
+                    dm_.deposit(Decimal(1 + tick % 3))   # between two hourly bars, an amount that depends on the bar's data
+                    obs["did"].add("deposit-off-hour")
+                elif not dm_.is_open and tick % 7 == 4 and dm_.balance > 2:
+                    dm_.withdraw(Decimal(1))
+                    obs["did"].add("withdraw-off-hour")
 
         def light(snap, tid):
             um.sell(Decimal("0.01"))
